@@ -298,3 +298,26 @@ func minDur(a, b time.Duration) time.Duration {
 	}
 	return b
 }
+
+// markRunning writes the case that is about to run to the failure directory
+// (RUNNING-<prop>-<sub>.json); clearRunning removes it. Some failures end the
+// process without a chance to record anything (a fatal error of the Go
+// runtime such as a stack overflow, the race detector): the driver then takes
+// the marked case, replays it in a fresh process and reports it if that
+// process dies in the same way.
+func markRunning(prop, sub string, c any, msg string) {
+	dir := os.Getenv("VERIF_FAIL_DIR")
+	if dir == "" {
+		return
+	}
+	rec := failureRecord{Property: prop, Sub: sub, Message: msg}
+	rec.Case, _ = json.Marshal(c)
+	b, _ := json.Marshal(rec)
+	_ = os.WriteFile(filepath.Join(dir, "RUNNING-"+prop+"-"+sub+".json"), b, 0o644)
+}
+
+func clearRunning(prop, sub string) {
+	if dir := os.Getenv("VERIF_FAIL_DIR"); dir != "" {
+		os.Remove(filepath.Join(dir, "RUNNING-"+prop+"-"+sub+".json"))
+	}
+}
